@@ -188,6 +188,7 @@ def run(ctx):
                          for st in au.walk_stmts(init.body))
     unit_pos = [q.name for q in init.params[1:]].index("main_time_unit") if init.param("main_time_unit") else None
     n_sites = 0
+    seen_refs = {}
     for fn in p.all_functions():
         for c in p.calls_in(fn):
             if not (isinstance(c.func, ast.Name) and c.func.id == "Timegrid"):
@@ -209,7 +210,8 @@ def run(ctx):
                         want.add("self.main_time_unit")
                     ok = (au.path(unit) in want)
                     detail = "main_time_unit=%s is not the unit of the reference grid %s" % (au.short(unit, 40), refp)
-            ctx.ob("C12.d", fn, au.short(c, 100), ok,
+            seen_refs[(fn.qualname, au.U(ref))] = seen_refs.get((fn.qualname, au.U(ref)), 0) + 1
+            ctx.ob("C12.d", fn, au.short(c, 100), ok, key="grid #%d derived from %s" % (seen_refs[(fn.qualname, au.U(ref))], au.U(ref)), detail=
                    detail + " - dt is copied from the reference (in its unit) but every later conversion (discounting, take "
                             "proration, durations) uses the derived grid's unit: with main_time_unit='d' and wacc 0.5 a split "
                             "optimisation gives 14140 instead of 13698", node=c)
